@@ -37,6 +37,8 @@ type Shared struct {
 	CtxDone  []context.Context
 	Brokers  []any
 	ExitHook func() // runs in the plugin before a requested exit (cleanup marker)
+	// SlowServer: how long Plugin.Server() takes for a plugin name (net/rpc)
+	SlowServer map[string]time.Duration
 }
 
 func NewShared(tag string) *Shared { return &Shared{Tag: tag, KV: map[string]string{}} }
@@ -545,9 +547,17 @@ type NetRPC struct {
 	// identity tag, so that a dispense reaching another dispense's server
 	// object is visible).
 	Name string
+	// Fail: Server() returns an error (after the SlowServer delay)
+	Fail bool
 }
 
 func (p *NetRPC) Server(b *plugin.MuxBroker) (interface{}, error) {
+	if d := p.Sh.SlowServer[strings.TrimSuffix(p.Name, "/")]; d > 0 {
+		time.Sleep(d)
+	}
+	if p.Fail {
+		return nil, fmt.Errorf("cannot create the implementation of %s", p.Name)
+	}
 	p.Sh.mu.Lock()
 	p.Sh.Objects++
 	n := p.Sh.Objects
